@@ -136,7 +136,7 @@ ACB_REQ = ['0 <= start', 'start < end', 'end <= len(code)', 'len(name) >= 1',
            'elem_type == 1 or elem_type == 2 or elem_type == 3',
            'start + (2 if elem_type == 2 else 1) + len(name) < end',
            "code[start] == '<'", "code[end - 1] == '>'",
-           'forall(0, len(name), lambda i: code[start + (2 if elem_type == 2 else 1) + i] == name[i])',
+           'occurs_at(code, start + (2 if elem_type == 2 else 1), name)',
            'g_last_end <= start']
 
 # the tag strictly contains the position, is a tag of `code`, carries its name, and every attribute
@@ -147,7 +147,7 @@ define('ctx_pos', ['t', 'code', 'pos'],
        '(t.type == 1 or t.type == 2 or t.type == 3) and (t.type == 2 or t.attributes is not None)')
 define('ctx_name', ['t', 'code'],
        't.start + (2 if t.type == 2 else 1) + len(t.name) < t.end and '
-       'forall(0, len(t.name), lambda i: code[t.start + (2 if t.type == 2 else 1) + i] == t.name[i])')
+       'occurs_at(code, t.start + (2 if t.type == 2 else 1), t.name)')
 define('ctx_attrs', ['t'],
        't.attributes is None or forall(0, len(t.attributes), lambda i: attr_ok(t.attributes[i], t.start, t.end))')
 CTX_OK = ['%s is None or ctx_pos(%s, code, pos)', '%s is None or ctx_name(%s, code)', '%s is None or ctx_attrs(%s)']
